@@ -725,6 +725,11 @@ class PipeOps(FullOps):
         if fn == "vmap":
             self.pev("vmap", node, kwargs={k: repr(v) for k, v in kwargs.items()})
             return VmapV(args[0])
+        dk_ = kwargs.get("dtype")
+        if not any(is_opaque(x) for x in flat) and fn in ("zeros", "ones", "empty", "full") and isinstance(dk_, MetaV) and isinstance(dk_.tag, str) and dk_.tag.startswith("dt:"):
+            # torch.empty(x.shape, dtype=x.dtype, device=x.device): a fresh tensor with the dtype of a pipeline tensor
+            self.pev("create", node, fn=fn, like=None)
+            return opaque(frozenset(), note=fn, axes=(Q,), dtype=dk_.tag)
         if not any(is_opaque(x) for x in flat):
             return super().call_lib(lib, fn, args, kwargs, node, env)
         a0 = args[0] if args else None
